@@ -19,6 +19,8 @@ What is proved (all for the code as it is, `Code.real`; every `leak_*` shows one
   pooled object, and its bytes stay intact until the sink has seen them, whatever else happens in between;
 * `hook_reads_own_entry`, `hooked_entry_not_pooled` — a CheckedEntry is in no pool while its hook runs, so the hook reads
   the entry of its own call whatever is logged meanwhile (`leak_early_put`: not so if `putCheckedEntry` comes first);
+* `core_encoder_unchanged_by_write`, `same_core_first_or_later` (+`_console`, `_child`) — the encoder a core holds is never
+  changed by logging through it (`leak_receiver_mutated`), `receiver_encoder_never_mutated` over the source;
 * `put_is_last_use`, `field_covered`, `source_matches_model_get`, `put_resets_cover_inv`, `put_sites`, `free_sites` — decided over `Gen/Pools.lean`, regenerated from the
   source on every run: a new field, a dropped reset, a new put site or a moved `Free` breaks the build.
 
@@ -165,9 +167,12 @@ theorem others_same_first_or_later (orc : Orc) (hist : List Op) :
     (∀ avail full, (run Code.real orc H.empty (hist ++ [.capture avail full])).out.head? =
         some (Out.stack (if full then avail else avail.take 1))) ∧
     (∀ s, (run Code.real orc H.empty (hist ++ [.scratch s])).out.head? = some (Out.line s)) := by
-  refine ⟨?_, ?_, ?_, ?_, ?_⟩ <;> intros <;> rw [history_independent, prun_append] <;> simp [prun, pstep]
-  rename_i ent cores after errOut
-  cases after <;> rfl
+  refine ⟨?_, ?_, ?_, ?_, ?_⟩
+  · intros; rw [history_independent, prun_append]; simp [prun, pstep, pstepWith]
+  · intro ent cores after errOut; rw [history_independent, prun_append]; cases after <;> simp [prun, pstep]
+  · intros; rw [history_independent, prun_append]; simp [prun, pstep]
+  · intros; rw [history_independent, prun_append]; simp [prun, pstep]
+  · intros; rw [history_independent, prun_append]; simp [prun, pstep]
 
 /-! ## 4. buffer ownership -/
 
@@ -216,20 +221,18 @@ theorem in_flight_undisturbed (orc : Orc) (hist mid : List Op) (p : Parent) (j :
       some (Out.line (pureJson p j)) := by
   rw [history_independent, prun_append, prun_append, prun_append]
   generalize prun PS.empty hist = s0
-  obtain ⟨l', k', o', e⟩ := prun_nested mid 0 [] (pureJson p j) s0.inflight s0.live s0.inHook s0.out rfl hm
-  have : prun s0 [.encJson p j] = ⟨[] ++ pureJson p j :: s0.inflight, s0.live, s0.inHook, s0.out⟩ := rfl
-  rw [this, e]
-  simp [prun, pstep]
+  have e := prun_nested mid 0 (prun s0 [.encJson p j]) [] (pureJson p j) s0.inflight rfl rfl hm
+  generalize prun (prun s0 [.encJson p j]) mid = s1 at e
+  simp [prun, pstep, e]
 
 theorem in_flight_undisturbed_console (orc : Orc) (hist mid : List Op) (p : Parent) (j : CJob) (hm : nested 0 mid = true) :
     (run Code.real orc H.empty (hist ++ [.encConsole p j] ++ mid ++ [.deliver 0])).out.head? =
       some (Out.line (pureConsole p j)) := by
   rw [history_independent, prun_append, prun_append, prun_append]
   generalize prun PS.empty hist = s0
-  obtain ⟨l', k', o', e⟩ := prun_nested mid 0 [] (pureConsole p j) s0.inflight s0.live s0.inHook s0.out rfl hm
-  have : prun s0 [.encConsole p j] = ⟨[] ++ pureConsole p j :: s0.inflight, s0.live, s0.inHook, s0.out⟩ := rfl
-  rw [this, e]
-  simp [prun, pstep]
+  have e := prun_nested mid 0 (prun s0 [.encConsole p j]) [] (pureConsole p j) s0.inflight rfl rfl hm
+  generalize prun (prun s0 [.encConsole p j]) mid = s1 at e
+  simp [prun, pstep, e]
 
 /-! ## 4b. a CheckedEntry stays out of the pool until its hook has returned -/
 
@@ -243,12 +246,9 @@ theorem hook_reads_own_entry (orc : Orc) (hist mid : List Op) (ent : Nat) (cores
       some (Out.hook ent (some a)) := by
   rw [history_independent, prun_append, prun_append, prun_append]
   generalize prun PS.empty hist = s0
-  obtain ⟨f', l', o', e⟩ := prun_hnested mid 0 [] (ent, some a) s0.inHook s0.inflight s0.live
-    (Out.ce ent (cores.map some) (some a) errOut false :: s0.out) rfl hm
-  have : prun s0 [.check ent cores (some a) errOut true] =
-      ⟨s0.inflight, s0.live, [] ++ (ent, some a) :: s0.inHook, Out.ce ent (cores.map some) (some a) errOut false :: s0.out⟩ := rfl
-  rw [this, e]
-  simp [prun, pstep]
+  have e := prun_hnested mid 0 (prun s0 [.check ent cores (some a) errOut true]) [] (ent, some a) s0.inHook rfl rfl hm
+  generalize prun (prun s0 [.check ent cores (some a) errOut true]) mid = s1 at e
+  simp [prun, pstep, e]
 
 /-- while a hook runs its entry is in no pool: `getCheckedEntry` can never hand it out -/
 theorem hooked_entry_not_pooled (orc : Orc) (ops : List Op) :
@@ -265,6 +265,80 @@ theorem put_is_last_use :
      ("zapcore.(CheckedEntry).Write", "putCheckedEntry(ce)", false, 0),
      ("zapcore.(consoleEncoder).writeContext", "putJSONEncoder(context)", true, 0),
      ("zapcore.(jsonEncoder).EncodeEntry", "putJSONEncoder(final)", false, 0)] := by
+  decide +kernel
+
+/-! ## 4c. the encoder a core holds is never changed by logging through it -/
+
+/-- **clone discipline.** The encoder held by a core (made by `With`, i.e. `Clone` + `addFields`) is long-lived state
+    next to the pools.  No operation — a Write through that very core (JSON or console, with or without fields), a
+    `With` deriving a child from it, writes through other cores, panicking fields, anything — changes what any
+    existing core's encoder holds: its buffer bytes and its namespace counter read the same afterwards -/
+theorem core_encoder_unchanged_by_write (orc : Orc) (h : H) (hi : Inv h) (op : Op) (k : Nat) (b : Bytes) (m : LiveMeta)
+    (hb : liveAt (h.live.map h.mem) k = some b) (hm : liveAt h.liveMeta k = some m) :
+    liveAt ((step Code.real orc h op).live.map (step Code.real orc h op).mem) k = some b ∧
+    liveAt (step Code.real orc h op).liveMeta k = some m := by
+  obtain ⟨_, r⟩ := step_ok orc h (psOf h) op hi (rel_self h)
+  obtain ⟨a1, a2⟩ := pstep_live_stable (psOf h) op k b m hb hm
+  rw [r.2.1, r.2.2.2.2]
+  exact ⟨a1, a2⟩
+
+/-- the statement of the property for histories through the SAME core: a JSON Write through a core made by `With`
+    produces the line determined by how the core was made (`pureCtx p fields`) and the entry alone — whatever was
+    logged before the core was made (`pre`) and whatever was logged since (`mid`: through this core — field-less
+    entries, entries with fields, panicking fields —, through its children and siblings, through anything else) -/
+theorem same_core_first_or_later (orc : Orc) (pre mid : List Op) (p : Parent) (fields : List RO) (j : Job) :
+    (run Code.real orc H.empty
+        (pre ++ [.withClone p fields] ++ mid ++ [.encJsonAt (prun PS.empty pre).live.length j, .deliver 0])).out.head? =
+      some (Out.line (pureJson ⟨p.cfg, p.spaced, (pureCtx p fields).buf, (pureCtx p fields).openNs⟩ j)) := by
+  rw [history_independent, prun_append, prun_append, prun_append]
+  have hl := prun_len pre PS.empty rfl
+  generalize prun PS.empty pre = s0 at *
+  have := pparent_after s0 hl p fields mid
+  have e : prun s0 [.withClone p fields] = pstepWith s0 p fields := rfl
+  rw [e]
+  generalize prun (pstepWith s0 p fields) mid = s1 at *
+  simp [prun, pstep, this]
+
+theorem same_core_first_or_later_console (orc : Orc) (pre mid : List Op) (p : Parent) (fields : List RO) (j : CJob) :
+    (run Code.real orc H.empty
+        (pre ++ [.withClone p fields] ++ mid ++ [.encConsoleAt (prun PS.empty pre).live.length j, .deliver 0])).out.head? =
+      some (Out.line (pureConsole ⟨p.cfg, p.spaced, (pureCtx p fields).buf, (pureCtx p fields).openNs⟩ j)) := by
+  rw [history_independent, prun_append, prun_append, prun_append]
+  have hl := prun_len pre PS.empty rfl
+  generalize prun PS.empty pre = s0 at *
+  have := pparent_after s0 hl p fields mid
+  have e : prun s0 [.withClone p fields] = pstepWith s0 p fields := rfl
+  rw [e]
+  generalize prun (pstepWith s0 p fields) mid = s1 at *
+  simp [prun, pstep, this]
+
+/-- … and a child derived from that core at any later time starts from the same context -/
+theorem same_core_child_first_or_later (orc : Orc) (pre mid : List Op) (p : Parent) (fields extra : List RO) :
+    (run Code.real orc H.empty
+        (pre ++ [.withClone p fields] ++ mid ++ [.withAt (prun PS.empty pre).live.length extra])).out.head? =
+      some (Out.ctx (pureCtx ⟨p.cfg, p.spaced, (pureCtx p fields).buf, (pureCtx p fields).openNs⟩ extra).buf
+                    (pureCtx ⟨p.cfg, p.spaced, (pureCtx p fields).buf, (pureCtx p fields).openNs⟩ extra).openNs) := by
+  rw [history_independent, prun_append, prun_append, prun_append]
+  have hl := prun_len pre PS.empty rfl
+  generalize prun PS.empty pre = s0 at *
+  have := pparent_after s0 hl p fields mid
+  have e : prun s0 [.withClone p fields] = pstepWith s0 p fields := rfl
+  rw [e]
+  generalize prun (pstepWith s0 p fields) mid = s1 at *
+  simp [prun, pstep, pstepWith, this]
+
+/-- the clone discipline in the source (regenerated): `jsonEncoder.EncodeEntry`/`Clone`/`clone`,
+    `consoleEncoder.EncodeEntry`/`writeContext`/`Clone`/`addSeparatorIfNecessary` apply no mutating operation — field
+    assignment, buffer write, mutating method, handing the receiver to other code — to their RECEIVER (they work on
+    `final`, `context`, `clone`), and `ioCore.With`/`Check`/`Write`/`Sync`/`clone` call nothing but `EncodeEntry` and
+    `Clone` on `c.enc` -/
+theorem receiver_encoder_never_mutated :
+    Gen.Pools.recvMutations =
+    [("zapcore.jsonEncoder.EncodeEntry", ""), ("zapcore.jsonEncoder.Clone", ""), ("zapcore.jsonEncoder.clone", ""),
+     ("zapcore.consoleEncoder.EncodeEntry", ""), ("zapcore.consoleEncoder.writeContext", ""),
+     ("zapcore.consoleEncoder.Clone", ""), ("zapcore.consoleEncoder.addSeparatorIfNecessary", ""),
+     ("zapcore.ioCore.With", ""), ("zapcore.ioCore.Check", ""), ("zapcore.ioCore.Write", ""), ("zapcore.ioCore.Sync", ""),
+     ("zapcore.ioCore.clone", "")] := by
   decide +kernel
 
 /-! ## 5. the source, as regenerated into `Gen/Pools.lean` -/
@@ -430,6 +504,20 @@ theorem leak_early_put :
     last (run { putAfterHook := false } lifo H.empty [.check 1 [7] (some 3) none true, .hookReturn 0]) := by
   decide +kernel
 
+def Pns : Parent := ⟨1, true, [], 0⟩
+def cjNoFields : CJob := ⟨[], [9], some [109], [], none, [10]⟩
+def cjFields : CJob := ⟨[], [9], some [109], [RO.prim [115] (J.atom [50])], none, [10]⟩
+
+/-- `writeContext` closing the namespaces of the RECEIVER for field-less entries (a "fast path" without a clone): the
+    first field-less entry through a core whose context left a namespace open changes that core's encoder for good; every
+    later entry with fields has them outside the namespace -/
+theorem leak_receiver_mutated :
+    last (run { contextOnClone := false } lifo H.empty
+      [.withClone Pns [RO.ns [114], RO.prim [105] (J.atom [49])], .encConsoleAt 0 cjNoFields, .deliver 0, .encConsoleAt 0 cjFields, .deliver 0]) ≠
+    last (run { contextOnClone := false } lifo H.empty
+      [.withClone Pns [RO.ns [114], RO.prim [105] (J.atom [49])], .encConsoleAt 0 cjFields, .deliver 0]) := by
+  decide +kernel
+
 /-! ## 7. non-vacuity -/
 
 -- pooled garbage really is reused in these runs: after one JSON entry with a reflected field the pools hold the
@@ -464,6 +552,12 @@ example : nested 0 [.encJson P0 jPlain, .scratch [1], .encConsole P0 (cjPlain 65
 example : hnested 0 [.check 2 [9] none none true, .check 3 [8] (some 4) none true, .gc (fun _ => true), .hookReturn 0] = true := by decide
 example : last (run Code.real lifo H.empty [.check 1 [7] (some 3) none true, .check 2 [9] none none true, .hookReturn 0]) =
           some (Out.hook 1 (some 3)) := by decide +kernel
+
+-- the real code: the same two histories through one console core with an open namespace give the same line
+example : last (run Code.real lifo H.empty
+      [.withClone Pns [RO.ns [114], RO.prim [105] (J.atom [49])], .encConsoleAt 0 cjNoFields, .deliver 0, .encConsoleAt 0 cjFields, .deliver 0]) =
+    last (run Code.real lifo H.empty
+      [.withClone Pns [RO.ns [114], RO.prim [105] (J.atom [49])], .encConsoleAt 0 cjFields, .deliver 0]) := by decide +kernel
 
 -- a real (pooled) Stack satisfies the invariant after a deep capture grew it
 example : ((captureFrom StackObj.fresh (List.replicate 100 7) true).1.storage.length = 128) := by decide +kernel
